@@ -53,7 +53,9 @@ func RunTwin(res *RunResult) (string, bool) {
 		return "", false
 	}
 	cmd := exec.Command(os.Args[0], "-test.run", "^TestTwin$", "-test.timeout", "10m")
-	cmd.Env = append(os.Environ(), "SIM_TWIN="+path, "SIM_TWIN_DIR="+dir, "GOMAXPROCS=1")
+	// another address space, one CPU, the real wall clock, and a different local time zone and
+	// locale than the parent (anything that formats or truncates times in local time would show)
+	cmd.Env = append(os.Environ(), "SIM_TWIN="+path, "SIM_TWIN_DIR="+dir, "GOMAXPROCS=1", "TZ=Pacific/Kiritimati", "LANG=tr_TR.UTF-8", "LC_ALL=tr_TR.UTF-8")
 	var out bytes.Buffer
 	cmd.Stdout, cmd.Stderr = &out, &out
 	if err := cmd.Run(); err != nil && !strings.Contains(out.String(), "TWIN-") {
